@@ -1038,6 +1038,11 @@ class Interp:
             m = fv.cls.lookup("__call__")
             if m is not None:
                 return self.call_func(m, args, kwargs, node, self_obj=fv)
+        if isinstance(fv, EnumSym) and not args and not kwargs:
+            # an enum member called without arguments: its class's own __call__ (value tables)
+            m = fv.cls.lookup("__call__")
+            if m is not None and len(m.call_params) == 0:
+                return self.call_func(m, [], {}, node, self_obj=fv)
         if isinstance(fv, Sym):
             if fv.name.startswith("super."):
                 return None  # method of an external base class (object.__init__ ...)
